@@ -14,7 +14,7 @@ PROPS["C08"] = dict(
          "later), or a failed creation happened between two hits, or a successful insertion followed a Clear that removed something; "
          "distinct = FNV hash of (shape, capacity, keys, flags, op list). Excluded: items that are already expired when the create "
          "function returns them and the residency of a stale item after a failed re-creation (neither is determined by the "
-         "documentation; the second is followed, not asserted); concurrency (C09). GetOrCreate may carry a re-entrant create function: a nested program of at most 2 calls (GetOrCreate, Remove, rarely Clear; at most 2 levels deep) on other keys of the same cache, run by the create function before its own outcome (never on a key in flight: the single-flight table would make the call wait for itself); reference: the nested calls are ordinary calls at that moment, then the outer value is inserted as most recently used with eviction of the then least recently used entry.",
+         "documentation; the second is followed, not asserted); concurrency (C09). GetOrCreate may carry a re-entrant create function: a nested program of at most 2 calls (GetOrCreate, Remove, rarely Clear; at most 2 levels deep) on other keys of the same cache, run by the create function before its own outcome (never on a key in flight: the single-flight table would make the call wait for itself); reference: the nested calls are ordinary calls at that moment, then the outer value is inserted as most recently used with eviction of the then least recently used entry. The ecache shape also covers reference-like PKs whose memory the caller recycles: the harness keeps two reusable []string key buffers and, in half of the ecache cases, makes two thirds of its GetOrCreate/Remove calls (also nested ones) through a buffer after overwriting its content with the call's key text, so PKs stored by earlier calls are mutated behind the cache; residency, hits, eviction order and capacity must follow the inner key as computed at call time.",
     assumptions=["reference LRU written from the C08 statement and the comments of ecache.go / expirable.go; residency is probed only "
                  "through return values, create-call counts and delete callbacks",
                  "ECache: the PK handed to the delete callback is the one stored at creation, a hit through another PK with the same inner "
